@@ -1,9 +1,77 @@
-//! STUB component for mcfg -- to be written
+//! component 11: MCFG.  Case vocabulary documented in coq/theories/Spec/McfgS.v.
 use crate::sx::*;
+use crate::tcommon::*;
 use crate::Emit;
+use acpi_tables::mcfg::MCFG;
 
-pub fn run(_case: &Sx, _out: &mut Vec<Ev>) {
-    panic!("harness: component mcfg not implemented")
+pub fn run(case: &Sx, out: &mut Vec<Ev>) {
+    let c = case.list();
+    let ctor = c[0].list();
+    let (oem, tbl, rev) = hdr_args(ctor);
+    let mut t = MCFG::new(oem, tbl, rev);
+    for op in &c[1..] {
+        if let Sx::A(_) = op {
+            out.push(image(&t));
+            continue;
+        }
+        let o = op.list();
+        let n = |i: usize| o[i].num();
+        match n(0) {
+            1 => t.add_ecam(n(1), n(2) as u16, n(3) as u8, n(4) as u8),
+            _ => panic!("harness: bad mcfg op"),
+        }
+        out.push(Ev::Num(0));
+    }
 }
 
-pub fn gen(_tier: &str, _rng: &mut Rng, _emit: &mut Emit) {}
+fn rand_op(rng: &mut Rng) -> Sx {
+    l(vec![a(1), a(rng.val(64)), a(rng.val(16)), a(rng.val(8)), a(rng.val(8))])
+}
+
+pub fn gen(tier: &str, rng: &mut Rng, emit: &mut Emit) {
+    for _ in 0..4 {
+        let c = l(rand_hdr(rng));
+        emit.case(11, history(rng, c, vec![]));
+    }
+    // the one op kind alone: each field driven through its boundaries with the others distinct
+    for (b, s, sb, eb) in [
+        (0u64, 0u64, 0u64, 0u64),
+        (u64::MAX, 0xffff, 0xff, 0xff),
+        (0x0102_0304_0506_0708, 0x090a, 0x0b, 0x0c),
+        (1, 0, 0, 0),
+        (0, 1, 0, 0),
+        (0, 0, 1, 0),
+        (0, 0, 0, 1),
+        (0xc000_0000, 42, 0, 0x20),
+    ] {
+        let c = l(rand_hdr(rng));
+        emit.case(11, history(rng, c, vec![l(vec![a(1), a(b), a(s), a(sb), a(eb)])]));
+    }
+    for _ in 0..12 {
+        let c = l(rand_hdr(rng));
+        let op = rand_op(rng);
+        emit.case(11, history(rng, c, vec![op]));
+    }
+    for _ in 0..8 {
+        let c = l(rand_hdr(rng));
+        let ops = vec![rand_op(rng), rand_op(rng)];
+        emit.case(11, history(rng, c, ops));
+    }
+    // homogeneous runs: 300 entries and 4 100 entries (65535 -> 65536 bytes)
+    for n in [300usize, 4100] {
+        let c = l(rand_hdr(rng));
+        let ops = (0..n).map(|_| rand_op(rng)).collect();
+        emit.case(11, history(rng, c, ops));
+    }
+    let n = if tier == "thorough" { 3000 } else { 200 };
+    for _ in 0..n {
+        let c = l(rand_hdr(rng));
+        let len = match rng.below(3) {
+            0 => rng.range(1, 6),
+            1 => rng.range(1, 24),
+            _ => rng.range(25, 120),
+        };
+        let ops = (0..len).map(|_| rand_op(rng)).collect();
+        emit.case(11, history(rng, c, ops));
+    }
+}
